@@ -22,6 +22,7 @@ import (
 	"github.com/conduitio/conduit-commons/database"
 	"github.com/conduitio/conduit/pkg/foundation/cerrors"
 	"github.com/conduitio/conduit/pkg/foundation/log"
+	"github.com/conduitio/conduit/pkg/foundation/verifhook"
 )
 
 const (
@@ -420,6 +421,7 @@ func (p *Persister) flushNow(ctx context.Context, batch map[string]persistData, 
 	// by anyone else, so it cannot be reused underneath a Wait; the closer
 	// goroutine below converts it into a channel close, which is what callers
 	// actually observe.
+	verifhook.Yield(p, "persister.callbacks")
 	var cbWg sync.WaitGroup
 	cbWg.Add(len(batch))
 	for _, data := range batch {
